@@ -665,13 +665,23 @@ def _as_ptr(it, key, a, ce):
        "<generic_array::GenericArray<T, N> as core::convert::AsRef<[T]>>::as_ref",
        "<generic_array::GenericArray<T, N> as core::convert::AsMut<[T]>>::as_mut")
 def _ga_deref(it, key, a, ce):
-    m = re.search(r"generic_array::GenericArray<(.*)>", key) or re.search(r"GenericArray::<(.*)>::as_", key)
-    gt = "generic_array::GenericArray<%s>" % m.group(1)
-    if gt not in it.ty.t:
-        # find by suffix
-        cands = [k for k in it.ty.t if k.startswith("generic_array::GenericArray<") and k[28:-1] == m.group(1)]
-        gt = cands[0]
-    return _as_slice(it, a[0], gt)
+    ga = it.ins[key]["generic_args"]
+    et, n = ga[0]["ty"], typenum_value(ga[1]["ty"])
+    p = a[0]
+    if not isinstance(p, Ptr):
+        raise Undecided("GenericArray deref of %r" % (p,))
+    if p.idx is not None:
+        if p.ety is not None and it.ty.size_bits(p.ety) != it.ty.size_bits(et):
+            raise Undecided("GenericArray view granularity")
+        return Ptr(p.cell, p.path, idx=p.idx, meta=n, ety=p.ety or et)
+    v = it.read_path(p.cell.v, p.path)
+    if isinstance(v, tuple):
+        es = it.ty.size_bits(et)
+        v = Agg(v[i * es:(i + 1) * es] for i in range(n))
+        p.cell.v = it.write_path(p.cell.v, p.path, v)
+    if not isinstance(v, Agg) or len(v.f) != n:
+        raise Undecided("GenericArray value shape")
+    return Ptr(p.cell, p.path, idx=0, meta=n, ety=et)
 
 
 @model("generic_array::GenericArray::<T, N>::from_slice", "generic_array::GenericArray::<T, N>::from_mut_slice")
